@@ -3,6 +3,7 @@ package tree
 //verif:pkg ./container/tree
 // VerifTreeSeq args: kind (0 Set with natural less, 1 Map with a coarse order on struct keys, 2 Map natural: lookups with a counting comparator), steps
 //verif:case C01,C03 quick VerifTreeSeq 0..1 1..3 @variant=bf4 @unwind=600
+//verif:case C01,C03 quick VerifTreeSeq 2 1..3 @variant=bf4 @unwind=600
 //verif:case C01,C03 quick VerifTreeSeq 0..1 1..2 @unwind=600
 //verif:case C01,C03 quick VerifTreeSeq 0..1 4 @variant=bf4 @unwind=600
 //verif:case C01,C03 thorough VerifTreeSeq 0..1 5 @variant=bf4 @unwind=600
@@ -19,6 +20,7 @@ type vCK struct {
 
 // VerifTreeSeq: bounded histories from the empty collection through the exported wrappers:
 // kind 0: Set (NewSet + less): Add / Remove / Contains / Len / First / Last / Iterate
+// kind 2: Set (NewSetCmp + three-way compare), same observations
 // kind 1: Map with a coarse order (distinct-but-equivalent keys): Put overwrites the value of an
 //         equivalent key, Len counts classes, Get/Contains see classes, Iterate ascends by class.
 // Keys come from a 4-class domain so that at fan-out 4 the fourth insert splits the root.
@@ -30,6 +32,17 @@ func VerifTreeSeq(kind int, steps int) {
 	var m Map[vCK, int16]
 	if kind == 0 {
 		set = NewSet[int16](func(a, b int16) bool { return a < b })
+	} else if kind == 2 {
+		// the same Set through the three-way constructor (any negative / positive number is an answer)
+		set = NewSetCmp[int16](func(a, b int16) int {
+			if a < b {
+				return -7
+			} else if a > b {
+				return 2
+			}
+			return 0
+		})
+		kind = 0
 	} else {
 		m = NewMapCmp[vCK, int16](func(a, b vCK) int {
 			if a.cls < b.cls {
@@ -102,6 +115,33 @@ func VerifTreeSeq(kind int, steps int) {
 			}
 			_, ok := it.Next()
 			vAssert(!ok, "C01:set/iterate-ends")
+			if s == steps-1 && steps <= 3 { // (after the last step of the histories of up to 3 steps only: symbolic bounds multiply the paths)
+				// RangeReverse [lo, hi) through the Set wrapper with symbolic bounds: strictly
+				// descending members inside the bounds, as many as there are members inside
+				lo, hi := vNondet[int16]("lo"), vNondet[int16]("hi")
+				vAssume(vAnd(vAnd(0 <= lo, lo <= classes), vAnd(0 <= hi, hi <= classes)))
+				rit := set.RangeReverse(Included(lo), Excluded(hi))
+				cnt, prev := 0, int16(classes)
+				for i := 0; i <= classes; i++ {
+					x, ok := rit.Next()
+					if !ok {
+						break
+					}
+					vAssert(vAnd(vAnd(lo <= x, x < hi), x < prev), "C01:set/rangereverse-descending-inside-the-bounds")
+					member := false
+					for k := 0; k < classes; k++ {
+						member = vOr(member, vAnd(present[k], x == int16(k)))
+					}
+					vAssert(member, "C01:set/rangereverse-yields-members")
+					prev = x
+					cnt++
+				}
+				want := 0
+				for k := 0; k < classes; k++ {
+					want += vIte(vAnd(present[k], vAnd(lo <= int16(k), int16(k) < hi)), 1, 0)
+				}
+				vAssert(cnt == want, "C01:set/rangereverse-yields-every-member-inside")
+			}
 			vAssertInvSet(set, "C03:setseq")
 		} else {
 			vAssert(m.Len() == n, "C01:coarse/len-counts-classes")
